@@ -117,9 +117,9 @@ func (c *Ctx) ruleOverlap(rule string) {
 	for _, fn := range c.compatFuncs() {
 		// does this function compare bounds of two schemas?
 		type cmpSite struct {
-			bin        *ssa.BinOp
-			who1, w1   string
-			who2, w2   string
+			bin      *ssa.BinOp
+			who1, w1 string
+			who2, w2 string
 		}
 		var cmps []cmpSite
 		for _, b := range fn.Blocks {
